@@ -125,6 +125,14 @@ def to_yaml(template, path: str, **kwargs) -> None:
     from pyrates.frontend.fileio.yaml import dump_to_yaml
     dump_to_yaml(template, path=path, **kwargs)
 
+    # templates that were loaded from this file before it was (over)written are no longer what the file defines
+    import os
+    file_base = os.path.normpath(os.path.splitext(str(path))[0])
+    for key in list(template_cache):
+        if os.path.normpath(os.path.dirname(key)) == file_base or \
+                key.rsplit('.', 1)[0] == file_base.replace(os.sep, '.'):
+            template_cache.pop(key)
+
 
 def clear_cache():
     """Shorthand to clear template cache for whatever reason."""
